@@ -133,7 +133,10 @@ def gen_color(rng, allow_special=True, palette_indices=False):
     if allow_special and r < 0.06:
         return "currentColor"
     if palette_indices and r < 0.5:
-        return f"var(--color{rng.randint(0, 5)}, {rng.choice(HEX)})"
+        # few distinct RGB values so that one colour is often used both plain and under one or two explicit indices
+        return f"var(--color{rng.randint(0, 5)}, {rng.choice(HEX[:3])})"
+    if palette_indices and r < 0.75:
+        return rng.choice(HEX[:3])
     if allow_special and r < 0.14:
         return f"var(--color{rng.randint(0, 3)}, {rng.choice(HEX[:4])})" if palette_indices else rng.choice(NAMED)
     if r < 0.25:
@@ -564,5 +567,54 @@ def check_palette_of_font(ctx, res, case, out):
         elif (r, g, b) not in rgb:
             res.add_cex("a colour used by a glyph is missing from CPAL", {"case": case, "palette": pal_rgba, "colour": [r, g, b]},
                         {"site": "font-cpal-missing", "case": case["id"]})
+    # every colour RESOLVES to its own slot: the paints of a glyph reference index N for each `var(--colorN, c)` fill of its source,
+    # and as many distinct slots as the source has distinct (rgb, index) colours
+    from harness import shaper
+    for i, pico in enumerate(out["picosvgs"]):
+        glyphs = shaper.shape(font, out["codepoints"][i])
+        if not glyphs or len(glyphs) != 1:
+            continue
+        g = glyphs[0]
+        cols = set()
+        # COLRv0 keeps only the first colour of a gradient: there only plain fills are required to resolve
+        pat = r'(?:fill|stop-color)="([^"]+)"' if version == 1 else r'fill="([^"]+)"'
+        for m in re.finditer(pat, pico.tostring()):
+            v = m.group(1)
+            if v.startswith("url("):
+                continue
+            try:
+                c = Color.fromstring(v)
+            except ValueError:
+                continue
+            if not c.is_current_color():
+                cols.add((c.red, c.green, c.blue, c.palette_index))
+        refs = set()
+        if version == 0:
+            refs = {l.colorID for l in font["COLR"].ColorLayers.get(g, [])}
+        else:
+            t = font["COLR"].table
+            layers = t.LayerList.Paint if t.LayerList else []
+
+            def walk(p):
+                if p.Format == 1:
+                    for q in layers[p.FirstLayerIndex:p.FirstLayerIndex + p.NumLayers]:
+                        walk(q)
+                if p.Format == 2:
+                    refs.add(p.PaletteIndex)
+                if hasattr(p, "ColorLine") and p.ColorLine is not None:
+                    refs.update(st.PaletteIndex for st in p.ColorLine.ColorStop)
+                for attr in ("Paint", "SourcePaint", "BackdropPaint"):
+                    ch = getattr(p, attr, None)
+                    if ch is not None:
+                        walk(ch)
+            for rec in (t.BaseGlyphList.BaseGlyphPaintRecord if t.BaseGlyphList else []):
+                if rec.BaseGlyph == g:
+                    walk(rec.Paint)
+        refs.discard(0xFFFF)
+        explicit = {idx for (_, _, _, idx) in cols if idx is not None}
+        if not explicit <= refs:
+            res.add_cex(f"a fill declared as var(--colorN, ...) does not reference palette index N in the colour glyph (missing {sorted(explicit - refs)})",
+                        {"case": case, "glyph": g, "referenced": sorted(refs), "source_colours": sorted(cols, key=repr)},
+                        {"site": "font-colr-index", "case": case["id"], "glyph": i})
     if version == 1 and any(a != 255 for (_, _, _, a) in pal_rgba):
         res.add_cex("COLRv1 palette entry is not opaque", {"case": case, "palette": pal_rgba}, {"site": "font-cpal-opaque", "case": case["id"]})
